@@ -416,8 +416,10 @@ def run_check(prop, tier, seed, runs=None, workers=None, wall_cap=None, quiet=Fa
         "wall_s": round(wall, 2),
         "violations": len(reported),
     }
-    os.makedirs(EVIDENCE_DIR, exist_ok=True)
-    with open(os.path.join(EVIDENCE_DIR, "%s.json" % prop), "w") as f:
+    # evidence under /verif/evidence describes /repo itself; runs against another tree (sensitivity experiments) go elsewhere
+    evdir = EVIDENCE_DIR if os.path.abspath(subject.repo_dir()) == "/repo" else os.path.join(OUT_DIR, "evidence-other-tree")
+    os.makedirs(evdir, exist_ok=True)
+    with open(os.path.join(evdir, "%s.json" % prop), "w") as f:
         json.dump(ev, f, indent=1, sort_keys=True)
     log("%s: %d runs, %d invocations, %d distinct (%d non-trivial) histories, %d violation class(es), %d anomalies, %.1fs%s" % (
         prop, len(results), invocations, len(keyset), len(nontrivial), len(reported), n_anom, wall,
